@@ -21,4 +21,9 @@ for s in seeds:
     finally:
         subprocess.run(['git','-C','/repo','checkout','--','.'])
     print(name,'SILENT' if not al else 'ALARMS', json.dumps(al)[:900],flush=True)
-json.dump(res,open(V+'/seeded-neutral/RESULT.json','w'),indent=1,sort_keys=True)
+rp=V+'/seeded-neutral/RESULT.json'
+prev={}
+if os.path.exists(rp) and len(sys.argv)>1:
+    prev=json.load(open(rp))
+prev.update(res)
+json.dump(prev,open(rp,'w'),indent=1,sort_keys=True)
